@@ -23,7 +23,7 @@
      `Rdata::validate`; and the typed syntaxes of A (IN), NS MD MF CNAME MB MG MR PTR (one name),
      MX, SOA, MINFO, SRV (IN), TXT, HINFO, AAAA (IN; eight hexadecimal groups written in full, with `::` for a run of zero groups,
      and/or ending in a dotted quad), Chaosnet A (name and octal
-     address) —
+     address), WKS (IN; see D18 below) —
      names absolute, relative or `@`, in any octet forms;
      character-strings quoted or unquoted, each octet raw, `\X` or `\DDD`, with raw newlines inside
      quotes; all with the lines they span;
@@ -47,12 +47,12 @@
      octet bit-reversed, and that the repaired mask gives the RFC's; `C23_wks_bit_order_witness`
      is the concrete record.  The model takes the order from the repository (extractor →
      `Gen.wksMaskMsbFirst`), so the same theorems check against a repaired tree.
-  NOT PROVED (the gap; the name says `_partial`)
-     the typed RDATA syntax of WKS is not in the presentation AST (in the subset such RDATA can be
-     written in `\#` form).  It is covered on every run by the correspondence oracle, which is
-     independent of these proofs: the harness's pretty-printer renders random record lists with
-     random choices for *all* of the above and the expected parse is the generating record list
-     (op `zfp`, spec column = expected records; files with IN WKS ports: op `zfw`, group `zonewks`).
+     The typed syntax of WKS is in the presentation AST (`C23_wks_text`: address, `TCP` / `UDP` in
+     any case or a number, any ports, general gaps): the parser reads exactly those and hands
+     them to `serialize_in_wks`.  `C23_rdata_partial` therefore has WKS = the RFC's RDATA under
+     `WksOrderOK` (the repository's order is the RFC's, or the bit map reads the same in both
+     orders, e.g. no ports); for the other port lists the parser's result is, by D18, not what the
+     text denotes.
 -/
 import QV.Proofs.ZoneFile.Files
 import QV.Proofs.ZoneFile.Wks
@@ -203,6 +203,7 @@ private theorem mA : WFType (.mnemonic [97] 1) := ⟨"A", by decide, by decide +
 private theorem mTxt : WFType (.mnemonic [116, 120, 116] 16) := ⟨"TXT", by decide, by decide +kernel⟩
 private theorem mHinfo : WFType (.mnemonic [72, 105, 110, 102, 111] 13) := ⟨"HINFO", by decide, by decide +kernel⟩
 private theorem mAaaa : WFType (.mnemonic [97, 65, 97, 65] 28) := ⟨"AAAA", by decide, by decide +kernel⟩
+private theorem mWks : WFType (.mnemonic [87, 107, 115] 11) := ⟨"WKS", by decide, by decide +kernel⟩
 private theorem mMinfo : WFType (.mnemonic [77, 73, 78, 70, 79] 14) := ⟨"MINFO", by decide, by decide +kernel⟩
 
 private def nA : PName := .rel [] [(97, .raw)]
@@ -216,7 +217,7 @@ private def sD : PString := ⟨false, [(100, .dec)]⟩
     `$ORIGIN t.¶` `a\.b.\010c. iN 5 TYPE1 \# 4 01020304 ;x¬` `→¬` ` →TYPE16→\#(2;h¶ 0161)¶` `$TTL→(;x¶ 9 )¬`
     `w CLASS3 TYPE99 \# 0¶` `@ Ns a¶` ` mx 10 m\\\¶.\120.¶` ` SOA @ a ( 1 ;s¬ 2¶→3 4 4294967295 ) ;d¶`
     `a→( 7;¶→iN ) Srv 1 2 3 @¶` ` MINFO a m\\\¶.\120. ;¶` ` a (192.0.2.1)¬` ` (txt "a¶b\"" c\;d¬ \100)¶`
-    ` Hinfo "" \100¶` ` aAaA 2001:db8:0:0:0:0:ff:ffff¶` ` aAaA fe80::1¶` ` aAaA ::ffff:192.0.2.1¶` ` aAaA 1:2:3:4:5:6:10.0.0.255¶` `a cH a @ 177777¶` `$INCLUDE "x y" (a)¶` `$INCLUDE→z ;` (no line end) -/
+    ` Hinfo "" \100¶` ` aAaA 2001:db8:0:0:0:0:ff:ffff¶` ` aAaA fe80::1¶` ` aAaA ::ffff:192.0.2.1¶` ` aAaA 1:2:3:4:5:6:10.0.0.255¶` ` Wks 10.0.0.1 (tCp→0 7)¶` `a cH a @ 177777¶` `$INCLUDE "x y" (a)¶` `$INCLUDE→z ;` (no line end) -/
 def exFile : List PEntry :=
   [.origin [[(116, .raw)]] [.blank false] [] [] .lf,
    .record ⟨.named (.abs [[(97, .raw), (46, .esc), (98, .raw)], [(10, .dec), (99, .raw)]]), some 5,
@@ -245,11 +246,13 @@ def exFile : List PEntry :=
    .record ⟨.same, none, none, true, .mnemonic [97, 65, 97, 65] 28, .aaaaC [65152] [1], [], [], [], [], .lf⟩,
    .record ⟨.same, none, none, true, .mnemonic [97, 65, 97, 65] 28, .aaaaV4 [] (some [65535]) 192 0 2 1, [], [], [], [], .lf⟩,
    .record ⟨.same, none, none, true, .mnemonic [97, 65, 97, 65] 28, .aaaaV4 [1, 2, 3, 4, 5, 6] none 10 0 0 255, [], [], [], [], .lf⟩,
+   .record ⟨.same, none, none, true, .mnemonic [87, 107, 115] 11, .wks 10 0 0 1 (.mnemonic [116, 67, 112] 6) [0, 7], [],
+      [[.blank false], [.blank false, .openParen], [.blank true]], [.closeParen], [], .lf⟩,
    .record ⟨.named nA, none, some (.mnemonic [99, 72] 3), false, .mnemonic [97] 1, .chA .atSign 65535, [], [], [], [], .lf⟩,
    .incl ⟨true, [(120, .raw), (32, .raw), (121, .raw)]⟩ (some nA) [.blank false] [.blank false, .openParen] [.closeParen] [] .lf,
    .incl ⟨false, [(122, .raw)]⟩ none [.blank true] [] [.blank false] [59] .eof]
 
-/-- the example file is well-formed and denotes sixteen records and two include requests -/
+/-- the example file is well-formed and denotes seventeen records and two include requests -/
 theorem exFile_ok :
     (∀ e ∈ exFile, WFEntry e) ∧
     denoteFile validB exFile (toSCtx {}) 1 =
@@ -269,9 +272,10 @@ theorem exFile_ok :
             .record ⟨25, [1, 97, 1, 116, 0], 9, 1, 28, [254, 128, 0, 0, 0, 0, 0, 0, 0, 0, 0, 0, 0, 0, 0, 1]⟩,
             .record ⟨26, [1, 97, 1, 116, 0], 9, 1, 28, [0, 0, 0, 0, 0, 0, 0, 0, 0, 0, 255, 255, 192, 0, 2, 1]⟩,
             .record ⟨27, [1, 97, 1, 116, 0], 9, 1, 28, [0, 1, 0, 2, 0, 3, 0, 4, 0, 5, 0, 6, 10, 0, 0, 255]⟩,
-            .record ⟨28, [1, 97, 1, 116, 0], 9, 3, 1, [1, 116, 0, 255, 255]⟩,
-            .incl 29 [120, 32, 121] (some [1, 97, 1, 116, 0]),
-            .incl 30 [122] (some [1, 116, 0])] := by
+            .record ⟨28, [1, 97, 1, 116, 0], 9, 1, 11, [10, 0, 0, 1, 6, 129]⟩,
+            .record ⟨29, [1, 97, 1, 116, 0], 9, 3, 1, [1, 116, 0, 255, 255]⟩,
+            .incl 30 [120, 32, 121] (some [1, 97, 1, 116, 0]),
+            .incl 31 [122] (some [1, 116, 0])] := by
   refine ⟨?_, by decide +kernel⟩
   have wfA : WFName nA := by unfold nA WFName; exact ⟨by decide, by simp [LabelsOK, labelOctets], by decide⟩
   have wfMail : WFName nMail := by
@@ -280,7 +284,7 @@ theorem exFile_ok :
     intro n h; cases h
   intro e he
   simp only [exFile, List.mem_cons, List.mem_nil_iff, or_false] at he
-  rcases he with rfl | rfl | rfl | rfl | rfl | rfl | rfl | rfl | rfl | rfl | rfl | rfl | rfl | rfl | rfl | rfl | rfl | rfl | rfl | rfl | rfl
+  rcases he with rfl | rfl | rfl | rfl | rfl | rfl | rfl | rfl | rfl | rfl | rfl | rfl | rfl | rfl | rfl | rfl | rfl | rfl | rfl | rfl | rfl | rfl
   · exact ⟨⟨by simp, by decide, by simp [LabelsOK, labelOctets], by decide⟩, false, GapOK_of_B (by decide),
       TailOK_of_B (by decide)⟩
   · refine ⟨?_, by decide, ?_,
@@ -331,6 +335,10 @@ theorem exFile_ok :
   · exact ⟨noOwner, by decide, (by intro c hc; cases hc),
       ⟨mAaaa, by decide, by decide, by decide⟩, ⟨by decide, by decide, by decide, by decide, by decide, by decide⟩,
       gaps_ok_of_B _ (by decide)⟩
+  · exact ⟨noOwner, by decide, (by intro c hc; cases hc),
+      ⟨mWks, by decide, by decide, by decide⟩,
+      ⟨by decide, by decide, by decide, by decide, ⟨"TCP", by decide, by decide +kernel⟩, by decide, by decide, by decide⟩,
+      gaps_ok_of_B _ (by decide)⟩
   · refine ⟨?_, by decide, ?_, ⟨mA, by decide, by decide, by decide⟩, ⟨trivial, by decide, by decide⟩,
       gaps_ok_of_B _ (by decide)⟩
     · intro n hn; cases hn; exact ⟨wfA, by decide⟩
@@ -359,15 +367,16 @@ example : parseAll (renderFile exFile) {} =
      .item (.record 25 ⟨[1, 97, 1, 116, 0], 9, 1, 28, [254, 128, 0, 0, 0, 0, 0, 0, 0, 0, 0, 0, 0, 0, 0, 1]⟩),
      .item (.record 26 ⟨[1, 97, 1, 116, 0], 9, 1, 28, [0, 0, 0, 0, 0, 0, 0, 0, 0, 0, 255, 255, 192, 0, 2, 1]⟩),
      .item (.record 27 ⟨[1, 97, 1, 116, 0], 9, 1, 28, [0, 1, 0, 2, 0, 3, 0, 4, 0, 5, 0, 6, 10, 0, 0, 255]⟩),
-     .item (.record 28 ⟨[1, 97, 1, 116, 0], 9, 3, 1, [1, 116, 0, 255, 255]⟩),
-     .item (.incl 29 [120, 32, 121] (some [1, 97, 1, 116, 0])),
-     .item (.incl 30 [122] (some [1, 116, 0]))] := by
+     .item (.record 28 ⟨[1, 97, 1, 116, 0], 9, 1, 11, [10, 0, 0, 1, 6, 129]⟩),
+     .item (.record 29 ⟨[1, 97, 1, 116, 0], 9, 3, 1, [1, 116, 0, 255, 255]⟩),
+     .item (.incl 30 [120, 32, 121] (some [1, 97, 1, 116, 0])),
+     .item (.incl 31 [122] (some [1, 116, 0]))] := by
   rw [C23_records_partial exFile exFile_ok.1 (by simp [exFile, EolsOK, entryEol]) {} CtxWF_default _ exFile_ok.2]
   rfl
 
 /-- the same file, evaluated directly: the text is what it is meant to be and the parser yields
-    sixteen records and two include requests -/
-example : (parseAll (renderFile exFile) {}).length = 18 := by decide +kernel
+    seventeen records and two include requests -/
+example : (parseAll (renderFile exFile) {}).length = 19 := by decide +kernel
 
 /-- RDATA alone: ` ( 10 ;x<CRLF> a )` and then the end of the file, after the type field of an MX
     record, origin `t.` -/
@@ -435,6 +444,51 @@ theorem C23_wks_bitmap (msb : Bool) (addr : List UInt8) (proto : Nat) (ports : L
     newInWksWith msb addr proto ports =
       addr ++ UInt8.ofNat proto :: (wksBitmap ports).map (if msb then id else revBits) :=
   newInWksWith_eq msb addr proto ports
+
+/-- **WKS as written** (for the order of bits the repository has, whichever it is): the text
+    `a.b.c.d  proto  port …` — protocol `TCP` / `UDP` in any mix of upper and lower case or a
+    number, any number of decimal ports, with general gaps (parentheses, line ends, comments)
+    between all fields and before the end of the line — is read as address, protocol and exactly
+    the listed ports, handed to `serialize_in_wks` (`newInWks`; `C23_wks_bitmap` says what that
+    is).  `C23_rdata_partial` contains the consequence: equal to the RFC's RDATA whenever
+    `WksOrderOK`. -/
+theorem C23_wks_text (ctx : Ctx) (G : Nat → PGap) (S : Nat → Bool) (tg : PGap) (cmt : List UInt8) (eol : PEol)
+    (r : List UInt8) (he : eol = .eof → r = []) (line : Nat)
+    (a b c d : Nat) (ha : a ≤ 255) (hb : b ≤ 255) (hc : c ≤ 255) (hd : d ≤ 255)
+    (pr : PCode) (hpr : WFProto pr) (ports : List Nat) (hp : ∀ p ∈ ports, p ≤ 65535) (hlen : ports.length ≤ 65535)
+    (hG : ∀ i, i ≤ 1 + ports.length → GapOK (G i) (S i) (S (i + 1))) (hT : TailOK tg cmt (S (1 + ports.length + 1))) :
+    parseRdata ctx 1 11
+      ⟨gapText (G 0) ++ (rdataText (fun i => G (i + 1)) (.wks a b c d pr ports) ++ (tailText tg cmt eol ++ r)), line, S 0⟩ =
+      .ok (newInWks [UInt8.ofNat a, UInt8.ofNat b, UInt8.ofNat c, UInt8.ofNat d] pr.value ports,
+        ⟨r, line + gapLines (G 0) + rdataLines (fun i => G (i + 1)) (.wks a b c d pr ports) + gapLines tg + eolLines eol,
+          false⟩) := by
+  have := parseRdata_wks_text ctx G S tg cmt eol r he line a b c d ha hb hc hd pr hpr ports hp hlen hG hT
+  simpa [rdataText, rdataLines, Nat.add_assoc] using this
+
+private def exG : Nat → PGap
+  | 0 => [.blank false]
+  | 1 => [.blank false, .openParen, .blank false]
+  | 2 => [.blank false]
+  | _ => [.blank false, .newline [59, 120] false, .blank false]
+
+/-- ` 1.2.3.4 ( uDp 25 ;x<LF> 80 )<LF>`: address, protocol 17, ports 25 and 80 — two lines -/
+example : parseRdata {} 1 11
+    ⟨gapText (exG 0) ++ (rdataText (fun i => exG (i + 1)) (.wks 1 2 3 4 (.mnemonic [117, 68, 112] 17) [25, 80]) ++
+      (tailText [.blank false, .closeParen] [] .lf ++ [])), 1, false⟩ =
+    .ok (newInWks [1, 2, 3, 4] 17 [25, 80], ⟨[], 3, false⟩) := by
+  have h := C23_wks_text {} exG (fun i => decide (2 ≤ i)) [.blank false, .closeParen] [] .lf [] (by intro h; cases h) 1
+    1 2 3 4 (by decide) (by decide) (by decide) (by decide) (.mnemonic [117, 68, 112] 17)
+    ⟨"UDP", by decide, by decide +kernel⟩ [25, 80] (by decide) (by decide)
+    (by
+      intro i hi
+      have : i = 0 ∨ i = 1 ∨ i = 2 ∨ i = 3 := by simp at hi; omega
+      rcases this with rfl | rfl | rfl | rfl <;> exact GapOK_of_B (by decide))
+    (TailOK_of_B (by decide))
+  simpa [rdataLines, portsLines, gapLines, exG, eolLines, PCode.value] using h
+
+example : gapText (exG 0) ++ (rdataText (fun i => exG (i + 1)) (.wks 1 2 3 4 (.mnemonic [117, 68, 112] 17) [25, 80]) ++
+      (tailText [.blank false, .closeParen] [] .lf ++ [])) = " 1.2.3.4 ( uDp 25 ;x\n 80 )\n".toUTF8.toList := by
+  decide +kernel
 
 /-- the repository under test (its mask expression is read by the extractor into
     `Gen.wksMaskMsbFirst`): with the RFC's order the parser's WKS RDATA is `wksWire`; with the
